@@ -5,6 +5,7 @@ import JSight.Model.PathPar
 import JSight.Model.IncName
 import JSight.Model.Descr
 import JSight.Model.Location
+import JSight.Model.OMap
 /-!
 Line-protocol driver around the hand-written models (core-only imports, so it links as a `lean_exe`).
 One request per line `op hexarg…`; one response line per request; the line `flush` flushes stdout.
@@ -60,6 +61,17 @@ def handle (line : String) : String :=
         match newLocation b i with
         | some l => "ok " ++ toString l.line ++ " " ++ toHexArg l.quote
         | none => "fault"
+  | "omap" :: ops =>
+    -- ops: s:<key>:<val>  t:<key>:<val>  u:<key>:<suffix>  m:<suffix> ; keys/values are plain words
+    let step (m : OMap String String) (o : String) : OMap String String :=
+      match o.splitOn ":" with
+      | ["s", k, v] => m.set k v
+      | ["t", k, v] => m.setToTop k v
+      | ["u", k, x] => m.update k (· ++ x)
+      | ["m", x] => m.mapVals (fun _ v => v ++ x)
+      | _ => m
+    let m := (ops.filter (· != "")).foldl step ({} : OMap String String)
+    "ok " ++ String.intercalate "," (m.entries.map fun (k, v) => k ++ "=" ++ v.getD "<nil>") ++ " len=" ++ toString m.len
   | _ => "bad-op"
 
 partial def loop (inp out : IO.FS.Stream) : IO Unit := do
